@@ -325,6 +325,48 @@ def _case_expected(chip, field, value, base, codes):
     return out
 
 
+def symbol_timeout_table(c, res):
+    """SX126x symbol-count RX timeout: for every request 0..248 and the class above the chip maximum, the command byte and register 0x0706
+    are the bytes of the reference driver (sx126x.c sx126x_set_lora_symb_nb_timeout, transcribed: mant = (min(n, 248) + 1) >> 1;
+    while mant > 31 { mant = (mant + 3) >> 2; exp += 1 }; SetLoRaSymbNumTimeout(mant << (2 exp + 1)); if n > 0: reg 0x0706 = exp + (mant << 3)).
+    SX127x: the 10-bit value is the request up to 1023 (bit provenance; decided in C17 as well)."""
+    prog = c.prog
+    bl = prog.by_short.get('lora_phy::sx126x::Sx126x::set_lora_symbol_num_timeout') or []
+    if len(bl) != 1:
+        raise CheckError('anchor: sx126x set_lora_symbol_num_timeout')
+    body = bl[0]
+    pis = [i for i in range(1, body.argc + 1) if body.local_name(i) == 'symbol_num']
+    if len(pis) != 1:
+        raise CheckError('anchor: symbol_num parameter')
+    from ..absint import Lin
+
+    def ref(n):
+        exp, mant = 0, (min(n, 248) + 1) >> 1
+        while mant > 31:
+            mant, exp = (mant + 3) >> 2, exp + 1
+        return (mant << (2 * exp + 1)) & 0xFF, ((exp + (mant << 3)) & 0xFF) if n > 0 else None
+    bad = []
+    n_cls = 0
+    for req in list(range(0, 249)) + [(249, 65535)]:
+        def setup(an_, fr, st, req=req):
+            if isinstance(req, tuple):
+                st.env[(fr.id, pis[0])] = ('int', Lin.sym('p_symbol_num'))
+                st.lo['p_symbol_num'], st.hi['p_symbol_num'] = req
+            else:
+                st.env[(fr.id, pis[0])] = ('int', Lin.const(req))
+        sh = [json.loads(k) for k, _ in spi.transactions(prog, body, setup=setup, unroll=True)]
+        n_cls += 1
+        cmd = [x[1][1] for x in sh if x[0] == 'write' and x[1][0] == '0xA0' and len(x[1]) == 2]
+        reg = [x[1][3] for x in sh if x[0] == 'write' and x[1][:3] == ['0x0D', '0x07', '0x06']]
+        wc, wr = ref(req if not isinstance(req, tuple) else 248)
+        if cmd != ['0x%02X' % wc] or reg != ([] if wr is None else ['0x%02X' % wr]):
+            bad.append('%s symbols: SetLoRaSymbNumTimeout %s / register 0x0706 %s, reference 0x%02X / %s' % (req, cmd, reg, wc, None if wr is None else '0x%02X' % wr))
+    if n_cls < 250:
+        raise CheckError('floor: symbol timeout classes %d < 250' % n_cls)
+    res.require(not bad, 'C13:sx126x::set_lora_symbol_num_timeout:table', 'sx126x symbol-count timeout differs from the reference driver: %s' % '; '.join(bad[:3]), body.path,
+                'TABLE(symbol timeout bytes for every request, reference algorithm)', instance='sx126x symbol timeout: command byte and register 0x0706 = reference for each of 250 request classes')
+
+
 def modulation_cases(c, res, want):
     prog = c.prog
     ops = {'sx1276': (CHIPS['sx127x'] + 'set_modulation_params', {'C': SX127X_VARIANTS['sx1276']}), 'sx1272': (CHIPS['sx127x'] + 'set_modulation_params', {'C': SX127X_VARIANTS['sx1272']}),
@@ -447,6 +489,7 @@ def run(tier):
     pa_tables(c, res)
     image_calibration(c, res)
     modulation_cases(c, res, want)
+    symbol_timeout_table(c, res)
     # FIELD-FIT: a value packed into a command / register byte by a constant left shift must fit the field - no set bit
     # may be shifted out of the type (Rust does not check this). Judged with the interval of the operand in every
     # context of the analysed operations (all arguments and chip bytes symbolic).
